@@ -45,10 +45,57 @@ def set_parents(tree):
     tree._parent = None
 
 
+def _stmt_lists(node):
+    for field in ("body", "orelse", "finalbody", "handlers"):
+        sub = getattr(node, field, None)
+        if isinstance(sub, list) and sub and isinstance(sub[0], (ast.stmt, ast.ExceptHandler)):
+            yield sub
+
+
+def _relayout(tree, path):
+    new = ast.parse(ast.unparse(tree), filename=path)
+
+    def pair(a, b):
+        la, lb = list(_stmt_lists(a)), list(_stmt_lists(b))
+        if len(la) != len(lb):
+            raise AnalysisError("front-end", path, "normalised module does not re-parse to the same statement structure")
+        for xa, xb in zip(la, lb):
+            if len(xa) != len(xb):
+                raise AnalysisError("front-end", path, "normalised module does not re-parse to the same statement structure")
+            for sa_, sb in zip(xa, xb):
+                if type(sa_) is not type(sb):
+                    raise AnalysisError("front-end", path, "normalised module does not re-parse to the same statement structure")
+                line = getattr(sa_, "lineno", 0)
+                for n in ast.walk(sb):
+                    if not hasattr(n, "_orig_lineno"):
+                        n._orig_lineno = line
+                sb._orig_lineno = line
+                pair(sa_, sb)
+
+    # inner statements are visited after their parents: give them their own line (overwrite the parent's)
+    def pair_top(a, b):
+        la, lb = list(_stmt_lists(a)), list(_stmt_lists(b))
+        if len(la) != len(lb):
+            raise AnalysisError("front-end", path, "normalised module does not re-parse to the same statement structure")
+        for xa, xb in zip(la, lb):
+            if len(xa) != len(xb):
+                raise AnalysisError("front-end", path, "normalised module does not re-parse to the same statement structure")
+            for sa_, sb in zip(xa, xb):
+                if type(sa_) is not type(sb):
+                    raise AnalysisError("front-end", path, "normalised module does not re-parse to the same statement structure")
+                line = getattr(sa_, "lineno", 0)
+                for n in ast.walk(sb):
+                    n._orig_lineno = line
+                pair_top(sa_, sb)
+
+    pair_top(tree, new)
+    return new
+
+
 class Module:
-    def __init__(self, name, path, text):
+    def __init__(self, name, path, text, tree=None):
         self.name, self.path, self.text = name, path, text
-        self.tree = ast.parse(text, filename=path)
+        self.tree = tree if tree is not None else ast.parse(text, filename=path)
         set_parents(self.tree)
         self.tree._module = self
         self.env = {}
@@ -116,21 +163,31 @@ class Program:
         self.by_path = {}
         self.pyx = {}  # path -> (rewritten text, tree)
         errors = []
+        trees = {}
+        for path, text in sorted(sources.items()):
+            if path.endswith(".py"):
+                try:
+                    trees[path] = ast.parse(text, filename=path)
+                except SyntaxError as e:
+                    errors.append((path, e))
+        if errors:
+            p, e = errors[0]
+            raise AnalysisError("front-end", f"{p}:{e.lineno}", f"does not parse: {e.msg}")
+        # front-end normalisation: helpers that do not exist in the pinned tree are folded back into their callers
+        from .inline import normalise_program
+        self.inlined = normalise_program(trees)
+        for path in self.inlined:
+            # re-layout the normalised module so that line numbers again reflect statement order (rules use them as an
+            # order proxy); the original positions are kept in _orig_lineno for reports
+            trees[path] = _relayout(trees[path], path)
         for path, text in sorted(sources.items()):
             if path.endswith(".py"):
                 name = path[:-3].replace("/", ".")
                 if name.endswith(".__init__"):
                     name = name[: -len(".__init__")]
-                try:
-                    m = Module(name, path, text)
-                except SyntaxError as e:
-                    errors.append((path, e))
-                    continue
+                m = Module(name, path, text, trees[path])
                 self.modules[name] = m
                 self.by_path[path] = m
-        if errors:
-            p, e = errors[0]
-            raise AnalysisError("front-end", f"{p}:{e.lineno}", f"does not parse: {e.msg}")
         self._mro_cache = {}
 
     # ---------------------------------------------------------------- anchors
@@ -314,7 +371,7 @@ def where(node, fn=None):
             break
         n = getattr(n, "_parent", None)
     path = m.path if m else "?"
-    return f"{path}:{getattr(node, 'lineno', 0)}"
+    return f"{path}:{getattr(node, '_orig_lineno', getattr(node, 'lineno', 0))}"
 
 
 def enclosing_function(node):
